@@ -42,8 +42,9 @@ def build():
         h.root('dot__' + p, g + '(a: %s, b: %s) -> S' % (Tp, Tv), 'EuclideanSpace::dot(a, b)', ('value', A.dot(a, b)))
         h.root('midpoint__' + p, g + '(a: %s, b: %s) -> %s' % (Tp, Tp, Tp), 'EuclideanSpace::midpoint(a, b)', ('value', [x + A.fn('idiv', y - x, El.c(2)) for x, y in zip(a, b)]))
         h.root('centroid__' + p, '<S: BaseNum + NumCast>(a: &[%s]) -> %s' % (Tp, Tp), '<%s as EuclideanSpace>::centroid(a)' % Tp, ('centroid', n))
-        # bounded instances: whatever the implementation (fold, loop, fast path for one point), n = 1..4 points unroll
-        for N in (1, 2, 3, 4):
+        # bounded instances: whatever the implementation (fold, loop, fast path for one point, blocks of 2 / 3 / 4 / 8 points with a
+        # remainder loop), n = 1..9 points unroll
+        for N in (1, 2, 3, 4, 5, 6, 7, 8, 9):
             h.root('centroid_n%d__%s' % (N, p), '<S: BaseNum + NumCast>(a: [%s; %d]) -> %s' % (Tp, N, Tp), '<%s as EuclideanSpace>::centroid(&a)' % Tp, ('centroid_n', n, N))
         h.root('new__' + p, '<S>(%s) -> %s' % (', '.join('%s: S' % c for c in comps), Tp), '%s::new(%s)' % (P, ', '.join(comps)), ('value', [ss('a%d' % i) for i in range(n)]), rule='K1 copy provenance')
         h.root('from_value__' + p, g + '(a: S) -> ' + Tp, '<%s as Array>::from_value(a)' % Tp, ('value', [ss('a0')] * n))
@@ -106,8 +107,8 @@ def check_centroid(run, S, name, spec, kw):
         nofold = rets0 and not any(e['fn'] == 'core::iter::traits::iterator::Iterator::fold' for l in rets0 for e in l['trace'])
         if loops or nofold:
             # not the fold idiom (an explicit loop over a slice of unknown length cannot be unrolled): the general-n
-            # argument does not apply; the bounded instances centroid_n1..4 decide the behaviour for up to four points
-            run.notes.setdefault('centroid_general_n', {})[name] = 'not decided for arbitrary n (no Iterator::fold idiom); decided for n = 1..4'
+            # argument does not apply; the bounded instances centroid_n1..9 decide the behaviour for up to nine points
+            run.notes.setdefault('centroid_general_n', {})[name] = 'not decided for arbitrary n (no Iterator::fold idiom); decided for n = 1..9'
             run.ob('%s:%s:general-n' % (PROP, name), True, rule='K7 fold pattern (not applicable to this implementation)', expected='fold idiom or bounded instances', found='bounded instances only', where=r0.get('span'), nontrivial=False)
             return
     sr = single_ret(run, S, name, allow_panics=True)
@@ -127,8 +128,8 @@ def check_centroid(run, S, name, spec, kw):
     init = flat(cv.val(e['args'][1]))
     if len(init) != n or not all(isinstance(x, El) for x in init):
         # a fold with another accumulator (a running (total, count) pair, say): not the idiom the general-n argument is written
-        # for; the bounded instances centroid_n1..4 decide the behaviour for up to four points
-        run.notes.setdefault('centroid_general_n', {})[name] = 'not decided for arbitrary n (fold over a compound accumulator); decided for n = 1..4'
+        # for; the bounded instances centroid_n1..9 decide the behaviour for up to nine points
+        run.notes.setdefault('centroid_general_n', {})[name] = 'not decided for arbitrary n (fold over a compound accumulator); decided for n = 1..9'
         run.ob('%s:%s:general-n' % (PROP, name), True, rule='K7 fold pattern (not applicable to this implementation)', expected='plain fold idiom or bounded instances', found='bounded instances only', where=where, nontrivial=False)
         return
     run.ob(key + ':init', len(init) == n and all(A.eq(x, ZERO) for x in init), rule='K7 fold pattern', expected='initial accumulator = zero vector', found=[A.show(x) for x in init], where=where)
